@@ -119,3 +119,22 @@ class AbsSubParser:
 
     def __call__(self, parser):
         raise NotImplementedError("external")
+
+
+class AbsElement:
+    """One raw element of an SFDL text (an operator or a word) as the token validator sees it: its text (`value`) and
+    ghost marks g_open / g_close (the text is "<" / ">")."""
+
+
+class AbsTokenList:
+    """The list of validated tokens `_process_tokens` appends to, seen through ghost counters: g_n tokens, of which g_open
+    OPEN_TAG and g_close CLOSE_TAG tokens, g_unknown DATA_ITEM tokens whose name is not a known data item."""
+
+    def append(self, token):
+        raise NotImplementedError("external")
+
+    def __getitem__(self, index):
+        raise NotImplementedError("external")
+
+    def __len__(self):
+        raise NotImplementedError("external")
